@@ -55,9 +55,9 @@ type CaseSpec struct {
 	// EvStyle > 0: event payloads take every shape a service may publish (null,
 	// true, bare words, pre-response look-alikes, empty), rotated by EvStyle;
 	// 0 = decimal numbers. The subject carries the index either way.
-	EvStyle int `json:"evstyle,omitempty"`
-	Drop   bool      `json:"drop"`
-	SubLen int       `json:"sublen,omitempty"` // length of a long namespace to Subscribe to (0 = none)
+	EvStyle int  `json:"evstyle,omitempty"`
+	Drop    bool `json:"drop"`
+	SubLen  int  `json:"sublen,omitempty"` // length of a long namespace to Subscribe to (0 = none)
 	// BusyUnsub > 0: that many events are queued inside the adapter behind a
 	// callback that blocks the listener; the subscription is then unsubscribed
 	BusyUnsub int `json:"busyunsub,omitempty"`
